@@ -142,6 +142,9 @@ class KeyMap:
                 rng.shuffle(fam)
                 ks = fam[: len(ABSTRACT_KEYS)] if rng.random() < 0.5 else [fam[0], fam[1], ks[2] if ks[2] not in fam else fam[2]]
                 rng.shuffle(ks)
+            for j in range(len(ks)):      # legal user names only: a family built on "metador" must not produce a reserved name
+                if ks[j].startswith("metador_"):
+                    ks[j] = "x" + ks[j]
             for j in range(len(ks)):      # distinct names
                 while ks[j] in ks[:j]:
                     ks[j] = ks[j] + "2"
